@@ -167,7 +167,7 @@ def demo_c16():
     from .gen import CMP, V, assign, if_
     prog = [if_(CMP("<", V("a"), V("b"))), assign("b", V("a")), {"op": "endif"}]
     fc = c16.fuse_case(prog, prog, "default")
-    keys = ("a", "b", "fused", "wa", "wb", "pred", "persistent")
+    keys = ("a", "b", "fused", "wa", "wb", "pred", "persistent", "a_after", "b_after")
     good = {k: fc[k] for k in keys}
     bad = copy.deepcopy(good)
     # the guard of the second method's statement points at the first method's flag
